@@ -38,8 +38,15 @@ func (s Set) Equal(t Term) bool {
 		return false
 	}
 
+	// both directions: with repeated elements one inclusion alone is not symmetric
+	// ([1, 1] is included in [1, 2], not the other way round)
 	for _, id := range s {
 		if !c.contains(id) {
+			return false
+		}
+	}
+	for _, id := range c {
+		if !s.contains(id) {
 			return false
 		}
 	}
@@ -64,11 +71,14 @@ func (s Set) String() string {
 	sort.Strings(eltStr)
 	return fmt.Sprintf("[%s]", strings.Join(eltStr, ", "))
 }
+
+// Intersect and Union return each element once: a set literal may repeat an
+// element, and two sets that are Equal must give Equal results.
 func (s Set) Intersect(t Set) Set {
 	result := Set{}
 
 	for _, id := range s {
-		if t.contains(id) {
+		if t.contains(id) && !result.contains(id) {
 			result = append(result, id)
 		}
 	}
@@ -76,10 +86,14 @@ func (s Set) Intersect(t Set) Set {
 }
 func (s Set) Union(t Set) Set {
 	result := Set{}
-	result = append(result, s...)
 
+	for _, id := range s {
+		if !result.contains(id) {
+			result = append(result, id)
+		}
+	}
 	for _, id := range t {
-		if !s.contains(id) {
+		if !result.contains(id) {
 			result = append(result, id)
 		}
 	}
